@@ -450,7 +450,7 @@ def judge_panel(ref, params, df, init, vf_list, *, tol=None, targets=None, judge
                         bad = v & (g != e)
                     else:
                         with np.errstate(all="ignore"):
-                            bad = v & ~(np.abs(g - e) <= 1e-11 * (1 + np.abs(e)) if bootstrap.X64 else np.abs(g - e) <= 1e-4 * (1 + np.abs(e)))
+                            bad = v & ~(((np.abs(g - e) <= (1e-11 if bootstrap.X64 else 1e-4) * (1 + np.abs(e))) & np.isfinite(g) & np.isfinite(e)) | (g == e))
                     if bad.any():
                         i0 = int(np.nonzero(bad)[0][0])
                         out["C03"].append({"key": "transition_mismatch", "what": f"period {t}->{t+1}: {s} differs from next_{s}(row) for {int(bad.sum())}/{int(v.sum())} agents; agent {i0}: got {g[i0]!r} expected {e[i0]!r}"})
@@ -479,7 +479,7 @@ def judge_targets(ref, params, df, targets, valid):
             g = np.asarray(got, dtype=float)
             with np.errstate(all="ignore"):
                 tol = 1e-11 if bootstrap.X64 else 1e-4
-                close = (np.abs(g - e) <= tol * (1 + np.abs(e))) | (np.isnan(g) & np.isnan(e)) | ((g == e))
+                close = ((np.abs(g - e) <= tol * (1 + np.abs(e))) & np.isfinite(g) & np.isfinite(e)) | (np.isnan(g) & np.isnan(e)) | ((g == e))
             bad = vflat & ~close
         if bad.any():
             i0 = int(np.nonzero(bad)[0][0])
@@ -564,7 +564,7 @@ def frames_equal(a, b, tol=1e-12):
             x = x.astype(float)
             y = y.astype(float)
             with np.errstate(all="ignore"):
-                ok = (np.abs(x - y) <= tol * (1 + np.abs(y))) | (x == y) | (np.isnan(x) & np.isnan(y))
+                ok = ((np.abs(x - y) <= tol * (1 + np.abs(y))) & np.isfinite(x) & np.isfinite(y)) | (x == y) | (np.isnan(x) & np.isnan(y))
             if not ok.all():
                 bad.append(c)
         elif not np.array_equal(x, y):
